@@ -102,6 +102,7 @@ theorem recvOn_fst (p : Path) (buf pre wire : Bytes) :
   · exact recvDoQ_fst buf wire
   · simp only [recvOn]; rw [recvUpsUDP_fst, length_overwrite]
   · simp only [recvOn]; rw [recvUpsTCP_fst, length_overwrite]
+  · rfl
 
 /-- The TCP specification does not mention the buffer size at all. -/
 theorem spec_tcp_size (a b : Nat) (wire : Bytes) : spec .tcp a wire = spec .tcp b wire := rfl
@@ -125,6 +126,7 @@ theorem recvOn_snd_length (p : Path) (hp : p ≠ .tcp) (buf pre wire : Bytes) :
       · split
         · simp
         · split <;> simp
+  · rfl
 
 /-- Every pooled buffer of a fixed-size pool has the configured length. -/
 def WF (s : Server) : Prop :=
@@ -186,5 +188,285 @@ theorem step_outcome (s : Server) (op : Op) (h : WF s) :
   by_cases hp : op.path = Path.tcp
   · rw [hp]; exact spec_tcp_size _ _ _
   · rw [takeBuf_length _ _ _ (h op.path hp)]
+
+/-! ### Buffers in flight (accept and serve as separate events) -/
+
+@[simp] theorem upd2_same {α : Type} (f : Path → Nat → α) (p : Path) (i : Nat) (a : α) :
+    upd2 f p i a p i = a := by simp [upd2]
+
+theorem upd2_other {α : Type} (f : Path → Nat → α) (p : Path) (i : Nat) (a : α) (q : Path) (j : Nat)
+    (h : ¬ (q = p ∧ j = i)) : upd2 f p i a q j = f q j := by simp [upd2, h]
+
+/-- The slice described by the recorded bounds, taken from the buffer after the read, is the view. -/
+theorem view_eq_bounds (p : Path) (buf pre wire v : Bytes)
+    (h : (recvOn p buf pre wire).1 = .view v) :
+    v = ((landing p (recvOn p buf pre wire).2 wire).take (bounds p buf.length wire).2).drop
+          (bounds p buf.length wire).1 := by
+  cases p <;> simp only [recvOn, landing, bounds, List.drop_zero] at h ⊢
+  · by_cases hn : min wire.length buf.length < dnsHeaderSize
+    · simp [recvUDP, hn] at h
+    · simp only [recvUDP, hn, if_false, Outcome.view.injEq] at h ⊢; exact h.symm
+  · by_cases h2 : wire.length < 2
+    · simp [recvTCP, h2] at h
+    · by_cases h3 : wire.length - 2 < be16 wire
+      · simp [recvTCP, h2, h3] at h
+      · simp only [recvTCP, List.length_drop, h2, h3, if_false, Outcome.view.injEq] at h ⊢; exact h.symm
+  · by_cases hn : min wire.length buf.length < dnsHeaderSize
+    · simp [recvDoQ, hn] at h
+    · by_cases h3 : be16 (overwrite buf wire) = (min wire.length buf.length - 2) % 65536
+      · simp only [recvDoQ, hn, h3, if_false, if_true, Outcome.view.injEq] at h ⊢; exact h.symm
+      · simp [recvDoQ, hn, h3] at h
+  · by_cases hn : min wire.length buf.length < minUpstreamSize
+    · simp [recvUpsUDP, hn] at h
+    · simp only [recvUpsUDP, length_overwrite, hn, if_false, Outcome.view.injEq] at h ⊢; exact h.symm
+  · by_cases h2 : wire.length < 2
+    · simp [recvUpsTCP, h2] at h
+    · by_cases h3 : buf.length < be16 wire
+      · simp [recvUpsTCP, h2, h3] at h
+      · by_cases h4 : wire.length - 2 < be16 wire
+        · simp [recvUpsTCP, h2, h3, h4] at h
+        · by_cases h5 : be16 wire < minUpstreamSize
+          · simp [recvUpsTCP, h2, h3, h4, h5] at h
+          · simp only [recvUpsTCP, length_overwrite, List.length_drop, h2, h3, h4, h5, if_false, Outcome.view.injEq] at h ⊢
+            exact h.symm
+  · simp only [recvDoH, Outcome.view.injEq] at h; rw [← h]; simp
+
+/-- Pool discipline: a pending request owns its buffer; fixed-size buffers keep their size. -/
+structure SInv (s : Sys) : Prop where
+  owned : ∀ rid pd, s.pend rid = some pd → s.own pd.path pd.bid = some rid
+  len : ∀ p, p ≠ Path.tcp → p ≠ Path.doh → ∀ id, (s.heap p id).length = s.cfg.size p
+
+theorem sinv_init (c : Cfg) : SInv (Sys.init c) :=
+  ⟨by intro rid pd h; simp [Sys.init] at h, by intro p _ _ id; simp [Sys.init]⟩
+
+theorem accept_cfg (s : Sys) (rid : Nat) (p : Path) (bid : Nat) (pre wire : Bytes) :
+    (s.accept rid p bid pre wire).1.cfg = s.cfg := by
+  unfold Sys.accept
+  split
+  · rfl
+  · split
+    · rfl
+    · split <;> rfl
+
+theorem serve_cfg (s : Sys) (rid : Nat) : (s.serve rid).1.cfg = s.cfg := by
+  unfold Sys.serve; split <;> rfl
+
+theorem step_cfg' (s : Sys) (e : Ev) : (s.step e).1.cfg = s.cfg := by
+  cases e
+  · exact accept_cfg ..
+  · exact serve_cfg ..
+
+theorem landing_length (p : Path) (hp : p ≠ Path.tcp) (hd : p ≠ Path.doh) (buf pre wire : Bytes) :
+    (landing p (recvOn p buf pre wire).2 wire).length = buf.length := by
+  have : landing p (recvOn p buf pre wire).2 wire = (recvOn p buf pre wire).2 := by
+    cases p <;> first | rfl | exact absurd rfl hd
+  rw [this, recvOn_snd_length p hp]
+
+/-- A buffer owned by a pending request differs from any buffer that `Get` may return. -/
+theorem owned_ne_avail (s : Sys) (h : SInv s) (rid : Nat) (pd : Pending) (hp : s.pend rid = some pd)
+    (p : Path) (bid : Nat) (ha : ¬ (s.own p bid).isSome) : ¬ (pd.path = p ∧ pd.bid = bid) := by
+  intro ⟨h1, h2⟩
+  have := h.owned rid pd hp
+  rw [h1, h2] at this
+  rw [this] at ha
+  exact ha rfl
+
+theorem sinv_accept (s : Sys) (h : SInv s) (rid : Nat) (p : Path) (bid : Nat) (pre wire : Bytes) :
+    SInv (s.accept rid p bid pre wire).1 := by
+  unfold Sys.accept
+  split
+  · exact h
+  · rename_i hfree
+    split
+    · exact h
+    · rename_i havail
+      have hlen : ∀ q, q ≠ Path.tcp → q ≠ Path.doh → ∀ id,
+          (upd2 s.heap p bid (landing p (recvOn p (s.heap p bid) pre wire).2 wire) q id).length = s.cfg.size q := by
+        intro q hq hd id
+        by_cases hc : q = p ∧ id = bid
+        · obtain ⟨rfl, rfl⟩ := hc
+          rw [upd2_same, landing_length q hq hd]; exact h.len q hq hd id
+        · rw [upd2_other _ _ _ _ _ _ hc]; exact h.len q hq hd id
+      split
+      · exact ⟨h.owned, hlen⟩
+      · refine ⟨?_, hlen⟩
+        intro rid' pd hpd
+        simp only at hpd
+        by_cases hr : rid' = rid
+        · simp only [hr, if_true] at hpd
+          injection hpd with hpd
+          subst hpd
+          rw [hr]; simp
+        · simp only [hr, if_false] at hpd
+          show upd2 s.own p bid (some rid) pd.path pd.bid = some rid'
+          rw [upd2_other _ _ _ _ _ _ (owned_ne_avail s h rid' pd hpd p bid havail)]
+          exact h.owned rid' pd hpd
+
+theorem sinv_serve (s : Sys) (h : SInv s) (rid : Nat) : SInv (s.serve rid).1 := by
+  unfold Sys.serve
+  split
+  · exact h
+  · rename_i pd hpd
+    refine ⟨?_, h.len⟩
+    intro rid' pd' hpd'
+    simp only at hpd' ⊢
+    by_cases hr : rid' = rid
+    · simp [hr] at hpd'
+    · simp only [hr, if_false] at hpd'
+      have h1 := h.owned rid pd hpd
+      have h2 := h.owned rid' pd' hpd'
+      rw [upd2_other]
+      · exact h2
+      · intro ⟨e1, e2⟩
+        rw [e1, e2, h1] at h2
+        injection h2 with h2
+        exact hr h2.symm
+
+theorem sinv_step (s : Sys) (h : SInv s) (e : Ev) : SInv (s.step e).1 := by
+  cases e
+  · exact sinv_accept s h ..
+  · exact sinv_serve s h ..
+
+theorem sinv_run (s : Sys) (h : SInv s) (evs : List Ev) : SInv (s.run evs) := by
+  induction evs generalizing s with
+  | nil => exact h
+  | cons e rest ih => exact ih _ (sinv_step s h e)
+
+theorem run_cfg' (s : Sys) (evs : List Ev) : (s.run evs).cfg = s.cfg := by
+  induction evs generalizing s with
+  | nil => rfl
+  | cons e rest ih => simp only [Sys.run]; rw [ih, step_cfg']
+
+/-- Request `rid` is pending and the slice it will hand to `Unpack`, read from the heap *now*, is `v`. -/
+def Holds (s : Sys) (rid : Nat) (v : Bytes) : Prop :=
+  ∃ pd, s.pend rid = some pd ∧ ((s.heap pd.path pd.bid).take pd.hi).drop pd.lo = v
+
+/-- **Frame.**  No event of another request changes what `rid` will decode. -/
+theorem holds_step (s : Sys) (h : SInv s) (rid : Nat) (v : Bytes) (hh : Holds s rid v) (e : Ev)
+    (hne : e.rid ≠ rid) : Holds (s.step e).1 rid v := by
+  obtain ⟨pd, hpd, hv⟩ := hh
+  cases e with
+  | accept rid' p bid pre wire =>
+    simp only [Ev.rid] at hne
+    simp only [Sys.step]
+    unfold Sys.accept
+    split
+    · exact ⟨pd, hpd, hv⟩
+    · split
+      · exact ⟨pd, hpd, hv⟩
+      · rename_i havail
+        have hk := owned_ne_avail s h rid pd hpd p bid havail
+        split
+        · exact ⟨pd, hpd, by simp only; rw [upd2_other _ _ _ _ _ _ hk]; exact hv⟩
+        · refine ⟨pd, ?_, by simp only; rw [upd2_other _ _ _ _ _ _ hk]; exact hv⟩
+          have hne' : ¬ rid = rid' := fun h' => hne h'.symm
+          simp only [hne', if_false, hpd]
+  | serve rid' =>
+    simp only [Ev.rid] at hne
+    simp only [Sys.step]
+    unfold Sys.serve
+    split
+    · exact ⟨pd, hpd, hv⟩
+    · refine ⟨pd, ?_, hv⟩
+      have hne' : ¬ rid = rid' := fun h' => hne h'.symm
+      simp only [hne', if_false, hpd]
+
+theorem holds_run (s : Sys) (h : SInv s) (rid : Nat) (v : Bytes) (hh : Holds s rid v) (evs : List Ev)
+    (hne : ∀ e ∈ evs, e.rid ≠ rid) : Holds (s.run evs) rid v := by
+  induction evs generalizing s with
+  | nil => exact hh
+  | cons e rest ih =>
+    exact ih _ (sinv_step s h e) (holds_step s h rid v hh e (hne e (List.mem_cons_self ..)))
+      (fun e' he' => hne e' (List.mem_cons_of_mem _ he'))
+
+/-- On a well-formed system, the guards of `accept` see `spec` of the wire bytes. -/
+theorem accept_outcome (s : Sys) (h : SInv s) (p : Path) (bid : Nat) (pre wire : Bytes) :
+    (recvOn p (s.heap p bid) pre wire).1 = spec p (s.cfg.size p) wire := by
+  rw [recvOn_fst]
+  by_cases hp : p = Path.tcp
+  · rw [hp]; rfl
+  · by_cases hd : p = Path.doh
+    · rw [hd]; rfl
+    · rw [h.len p hp hd]
+
+theorem accept_reject (s : Sys) (h : SInv s) (rid : Nat) (p : Path) (bid : Nat) (pre wire : Bytes)
+    (hfree : s.pend rid = none) (havail : s.own p bid = none) (w : Why)
+    (hs : spec p (s.cfg.size p) wire = .reject w) :
+    (s.accept rid p bid pre wire).2 = some (.reject w) := by
+  have ho := accept_outcome s h p bid pre wire
+  rw [hs] at ho
+  unfold Sys.accept
+  simp only [hfree, havail, Option.isSome_none, Bool.false_eq_true, if_false]
+  split
+  · rename_i w' hw; rw [ho] at hw; injection hw with hw; rw [hw]
+  · rename_i v hv; rw [ho] at hv; cases hv
+
+theorem accept_holds (s : Sys) (h : SInv s) (rid : Nat) (p : Path) (bid : Nat) (pre wire : Bytes)
+    (hfree : s.pend rid = none) (havail : s.own p bid = none) (v : Bytes)
+    (hs : spec p (s.cfg.size p) wire = .view v) :
+    (s.accept rid p bid pre wire).2 = none ∧ Holds (s.accept rid p bid pre wire).1 rid v := by
+  have ho := accept_outcome s h p bid pre wire
+  rw [hs] at ho
+  have hb := view_eq_bounds p (s.heap p bid) pre wire v ho
+  unfold Sys.accept
+  simp only [hfree, havail, Option.isSome_none, Bool.false_eq_true, if_false]
+  split
+  · rename_i w' hw; rw [ho] at hw; cases hw
+  · refine ⟨rfl, ⟨p, bid, (bounds p (s.heap p bid).length wire).1, (bounds p (s.heap p bid).length wire).2⟩,
+      by simp, ?_⟩
+    simp only [upd2_same]
+    exact hb.symm
+
+theorem serve_holds (s : Sys) (rid : Nat) (v : Bytes) (hh : Holds s rid v) :
+    (s.serve rid).2 = some (.view v) := by
+  obtain ⟨pd, hpd, hv⟩ := hh
+  unfold Sys.serve
+  rw [hpd]
+  simp only [hv]
+
+
+/-! ### Response side: what is written is the packed message, whatever the pooled array held -/
+
+theorem packBuffer_take (arr : Bytes) (len : Nat) (msg : Bytes) :
+    (packBuffer arr len msg).take msg.length = msg := by
+  unfold packBuffer
+  split
+  · rename_i h
+    rw [take_overwrite arr msg _ (Nat.le_refl _) (by omega), List.take_of_length_le (Nat.le_refl _)]
+  · exact List.take_of_length_le (Nat.le_refl _)
+
+theorem packBuffer_length (arr : Bytes) (len : Nat) (msg : Bytes) :
+    msg.length ≤ (packBuffer arr len msg).length := by
+  unfold packBuffer
+  split
+  · rename_i h; rw [length_overwrite]; omega
+  · exact Nat.le_refl _
+
+theorem grow2_length (arr : Bytes) (l : Nat) : l + 2 ≤ (grow2 arr l).length := by
+  unfold grow2
+  split
+  · assumption
+  · simp only [List.length_append, length_zeros]; omega
+
+theorem overwrite_fits (buf data : Bytes) (h : data.length ≤ buf.length) :
+    overwrite buf data = data ++ buf.drop data.length := by
+  unfold overwrite; rw [List.take_of_length_le h]
+
+theorem packWithPrefix_written (arr : Bytes) (len : Nat) (msg : Bytes) :
+    (packWithPrefix arr len msg).1 = be16Bytes msg.length ++ msg := by
+  simp only [packWithPrefix]
+  rw [packBuffer_take]
+  have hg := grow2_length (packBuffer arr len msg) msg.length
+  generalize grow2 (packBuffer arr len msg) msg.length = a2 at hg
+  have hP : (be16Bytes msg.length).length = 2 := rfl
+  have hd : msg.length ≤ (a2.drop 2).length := by simp only [List.length_drop]; omega
+  have hS : writeAt a2 2 msg = a2.take 2 ++ (msg ++ (a2.drop 2).drop msg.length) := by
+    unfold writeAt; rw [overwrite_fits _ _ hd]
+  have h2 : (a2.take 2).length = 2 := by simp only [List.length_take]; omega
+  have hSl : (be16Bytes msg.length).length ≤ (writeAt a2 2 msg).length := by
+    rw [hS, hP]; simp only [List.length_append, h2]; omega
+  rw [overwrite_fits _ _ hSl, hP, hS, List.drop_append_of_le_length (by omega),
+    List.drop_of_length_le (by omega), List.nil_append, ← List.append_assoc]
+  exact List.take_left' (by simp only [List.length_append, hP]; omega)
 
 end Agd.Buffers
